@@ -162,7 +162,9 @@ func runBGV(c *eng.Ctx, cfg bgvCfg) {
 				if vec {
 					job.NPoly = 1 + rnd.N(4)
 				}
-				job.Lazy = job.API != "ct/bignum" && rnd.N(3) == 0
+				// lazy relinearization is a flag of polynomial.Polynomial; it is not combined with the even-only flag so
+				// that the two known defects keep separate signatures
+				job.Lazy = job.API != "ct/bignum" && job.Shape != shEven && rnd.N(4) == 0
 				switch rnd.N(4) {
 				case 0:
 					job.Level = minLevel
@@ -229,11 +231,8 @@ func bgvInput(rnd *eng.Rand, params bgv.Parameters, ecd *bgv.Encoder, enc *rlwe.
 func bgvEvalOnce(c *eng.Ctx, rnd *eng.Rand, cfg bgvCfg, params bgv.Parameters, sk *rlwe.SecretKey, ecd *bgv.Encoder, enc *rlwe.Encryptor, dec *rlwe.Decryptor,
 	eval *bgv.Evaluator, pe *bgvpoly.Evaluator, job bgvJob, vec bool, need, slots int) {
 	t := cfg.T
-	entry := "bgv/polynomial.Evaluator.Evaluate"
-	if job.API[:2] == "pb" {
-		entry = "bgv/polynomial.Evaluator.EvaluateFromPowerBasis"
-	}
-	sigp := "C13|" + entry
+	sigp := "C13|bgv/polynomial.Evaluator.Evaluate"
+	pred := flagClass(job.Shape, job.Lazy)
 	// polynomials
 	mask, isOdd, isEven := shapeMask(rnd, job.Shape, job.Deg)
 	coeffs := make([][]uint64, job.NPoly)
@@ -297,7 +296,7 @@ func bgvEvalOnce(c *eng.Ctx, rnd *eng.Rand, cfg bgvCfg, params bgv.Parameters, s
 				if ceilLog2(n) > job.Level && job.Mode == "standard" {
 					continue
 				}
-				err = pb.GenPower(n, job.Lazy, eval)
+				err = pb.GenPower(n, false, eval)
 			}
 			if err != nil {
 				return
@@ -325,14 +324,14 @@ func bgvEvalOnce(c *eng.Ctx, rnd *eng.Rand, cfg bgvCfg, params bgv.Parameters, s
 	}
 	if err != nil {
 		c.Eval(1)
-		c.Violate(sigp+"|unexpected-error|"+job.Mode, fmt.Sprintf("%+v: %v", job, err), map[string]any{"cfg": cfg, "job": job})
+		c.Violate(sigp+"|unexpected-error|"+pred, fmt.Sprintf("%+v: %v", job, err), map[string]any{"cfg": cfg, "job": job})
 		return
 	}
 	// level / scale / degree contract
-	c.Check(res.Level() == job.Level-need, sigp+"|levels-consumed|"+job.Mode, func() string {
+	c.Check(res.Level() == job.Level-need, sigp+"|levels-consumed|"+pred, func() string {
 		return fmt.Sprintf("%+v: output level %d, documented %d - %d", job, res.Level(), job.Level, need)
 	})
-	c.Check(res.Scale.Uint64() == job.TgtScale, sigp+"|output-scale|"+job.Mode, func() string {
+	c.Check(res.Scale.Uint64() == job.TgtScale, sigp+"|output-scale|"+pred, func() string {
 		return fmt.Sprintf("%+v: output scale %d, requested %d", job, res.Scale.Uint64(), job.TgtScale)
 	})
 	c.Check(res.Degree() == 1, sigp+"|output-degree", func() string { return fmt.Sprintf("%+v: degree %d", job, res.Degree()) })
@@ -367,20 +366,20 @@ func bgvEvalOnce(c *eng.Ctx, rnd *eng.Rand, cfg bgvCfg, params bgv.Parameters, s
 		if vec {
 			o = owner[bad]
 		}
-		c.Violate(sigp+"|wrong-value|"+job.Mode, fmt.Sprintf("%+v: slot %d x=%d poly#%d coeffs=%v got=%d want=%d (t=%d)", job, bad, vals[bad], o, eng.U64s(coeffs[o], 12), out[bad], refModT(coeffs[o], vals[bad], t), t),
+		c.Violate(sigp+"|wrong-value|"+pred, fmt.Sprintf("%+v: slot %d x=%d poly#%d coeffs=%v got=%d want=%d (t=%d)", job, bad, vals[bad], o, eng.U64s(coeffs[o], 12), out[bad], refModT(coeffs[o], vals[bad], t), t),
 			map[string]any{"cfg": cfg, "job": job})
 	}
-	if badUnmapped >= 0 {
-		c.Violate(sigp+"|unmapped-slot-nonzero|"+job.Mode, fmt.Sprintf("%+v: slot %d is in no mapping but decodes to %d", job, badUnmapped, out[badUnmapped]), map[string]any{"cfg": cfg, "job": job})
+	if badUnmapped >= 0 && bad < 0 {
+		c.Violate(sigp+"|unmapped-slot-nonzero|"+pred, fmt.Sprintf("%+v: slot %d is in no mapping but decodes to %d", job, badUnmapped, out[badUnmapped]), map[string]any{"cfg": cfg, "job": job})
 	}
 	// remaining noise budget of the result (evidence that the parameter rule leaves room)
-	if rnd.N(4) == 0 && params.N() <= 256 {
+	if bad < 0 && badUnmapped < 0 && rnd.N(4) == 0 && params.N() <= 256 {
 		ph := obs.Phase(params.Parameters, res.El(), sk)
 		st := obs.Stat(obs.Centered(params.RingQ().AtLevel(res.Level()), ph))
 		logQ := float64(params.RingQ().AtLevel(res.Level()).Modulus().BitLen())
-		budget := int64(logQ - 1 - st.MaxLog2)
-		c.Count("bgv_budget_measurements", 1)
-		c.Max("bgv_min_budget_bits_neg", -budget)
+		c.Count("noise_measurements", 1)
+		// fraction of log2(Q/2) used by the phase of the result: < 1000 means the decryption is unambiguous
+		c.Max("max_bgv_phase_over_logq_permille", int64(1000*(st.MaxLog2+1)/logQ))
 	}
 }
 
